@@ -2087,6 +2087,16 @@ func (ss *ServerSession) initialize(ctx context.Context, params *InitializeParam
 	if params == nil {
 		return nil, fmt.Errorf("%w: \"params\" must be be provided", jsonrpc2.ErrInvalidParams)
 	}
+	if params.ProtocolVersion >= protocolVersion20260728 {
+		// initialize is the legacy handshake: whatever newer version the client
+		// names, the session is answered with, and speaks, a legacy version.
+		// Record that one, because the recorded version is what decides whether
+		// the session is treated as a 2026-07-28 session (no unsolicited
+		// notifications, no server-initiated requests).
+		negotiated := *params
+		negotiated.ProtocolVersion = negotiatedVersion(params.ProtocolVersion)
+		params = &negotiated
+	}
 	var wasInit bool
 	ss.updateState(func(state *ServerSessionState) {
 		wasInit = state.InitializeParams != nil
